@@ -25,23 +25,33 @@ type loaded struct {
 
 // collectOverlay maps files under harnessDir (laid out by repo-relative package
 // path) and the verifrt package onto paths inside the repo.
-func collectOverlay(repo, harnessDir, rtDir string) (map[string]string, []string, error) {
+func collectOverlay(repo, harnessDir, rtDir string, shared []string) (map[string]string, []string, error) {
 	ov := map[string]string{}
 	dirs := map[string]bool{}
-	err := filepath.Walk(harnessDir, func(p string, info os.FileInfo, err error) error {
-		if err != nil {
-			return err
-		}
-		if info.IsDir() || !strings.HasSuffix(p, ".go") {
+	walk := func(root string, isHarness bool) error {
+		return filepath.Walk(root, func(p string, info os.FileInfo, err error) error {
+			if err != nil {
+				return err
+			}
+			if info.IsDir() || !strings.HasSuffix(p, ".go") {
+				return nil
+			}
+			rel, _ := filepath.Rel(root, p)
+			ov[filepath.Join(repo, rel)] = p
+			if isHarness {
+				dirs[filepath.Dir(rel)] = true
+			}
 			return nil
-		}
-		rel, _ := filepath.Rel(harnessDir, p)
-		ov[filepath.Join(repo, rel)] = p
-		dirs[filepath.Dir(rel)] = true
-		return nil
-	})
-	if err != nil {
+		})
+	}
+	if err := walk(harnessDir, true); err != nil {
 		return nil, nil, err
+	}
+	// shared kits: harness/_shared/<name>/<repo-relative path>/*.go
+	for _, sh := range shared {
+		if err := walk(filepath.Join(filepath.Dir(harnessDir), "_shared", sh), false); err != nil {
+			return nil, nil, err
+		}
 	}
 	// rtDir/verifrt/*.go -> internal/verifrt ; rtDir/<sub>/*.go -> internal/verifrt/<sub>
 	subs, err := os.ReadDir(rtDir)
@@ -75,8 +85,8 @@ func collectOverlay(repo, harnessDir, rtDir string) (map[string]string, []string
 	return ov, ds, nil
 }
 
-func loadProgram(repo, harnessDir, rtDir string, tags string) (*loaded, error) {
-	ov, dirs, err := collectOverlay(repo, harnessDir, rtDir)
+func loadProgram(repo, harnessDir, rtDir string, tags string, shared []string) (*loaded, error) {
+	ov, dirs, err := collectOverlay(repo, harnessDir, rtDir, shared)
 	if err != nil {
 		return nil, err
 	}
